@@ -1068,7 +1068,11 @@ class _Simu(_IObserver, _params.Updatable, ABC):
         else:
             csr_data = np.bincount(inv, weights=data, minlength=nnz)
 
-        matrix = sparse.csr_matrix((csr_data, indices, indptr), shape=shape)
+        # each matrix owns its index arrays: the cached pattern is never handed out, so an in-place
+        # operation of the caller on a returned matrix (eliminate_zeros, ...) cannot reach it
+        matrix = sparse.csr_matrix(
+            (csr_data, indices.copy(), indptr.copy()), shape=shape
+        )
         # Canonical by construction (scipy sorted the pattern): lets Solvers skip its canonical fixup.
         matrix.has_canonical_format = True
         return matrix
